@@ -83,6 +83,16 @@ def build_worker(scratch, variant):
             ov = os.path.join(scratch, "overlay_%s.json" % "_".join(parts[1:]))
             json.dump({"Replace": {os.path.join(HARNESS, "zoo14", "types_gen.go"): gen}}, open(ov, "w"))
             cmd += ["-overlay", ov]
+    alt = os.environ.get("VERIF_REPO_DIR")
+    if alt:
+        # development aid (tools/mutant_run.sh --tree): build against another checkout of go-json (a
+        # scratch worktree carrying a seeded change) without touching /repo. Registered commands never
+        # set it: they rebuild from /repo's working tree.
+        mod = open(os.path.join(HARNESS, "go.mod")).read().replace("=> /repo", "=> " + alt)
+        mf = os.path.join(scratch, "alt.mod")
+        open(mf, "w").write(mod)
+        shutil.copy(os.path.join(HARNESS, "go.sum"), os.path.join(scratch, "alt.sum"))
+        cmd += ["-modfile", mf]
     cmd += ["-o", out, "./cmd/vworker"]
     r = subprocess.run(cmd, cwd=HARNESS, env=env, capture_output=True, text=True)
     if r.returncode != 0:
